@@ -358,12 +358,14 @@ theorem data_segment_flag0_eq_flag2mem0 (cfg : Cfg) {mi : List UInt8} (hmi : ULe
 
 end W2c2Verif.Props.C08
 
-/-! ## Part 3 — `read_encode_roundtrip_partial`: every spec encoding of a section payload is accepted and
+/-! ## Part 3 — the read/encode round trip, first half: every spec encoding of a section payload is accepted and
 decoded to the section's abstract content, whatever follows it in the file.
 
-Covered: type, function, table, memory, start and data-count sections (vector counts, indices and limits in any
-LEB padding).  NOT yet covered: import, global, export, element, code, data sections and the custom/name
-sections (their readers are covered by the `reader-dump` correspondence and by `sections_framing_invariant`). -/
+Here: type, function, table, memory, start and data-count sections (vector counts, indices and limits in any LEB
+padding), collected in `read_encode_roundtrip_partial`.  The import, global, export, element, code, data and custom
+sections, the statement for all 13 kinds of section through the dispatcher (`read_encode_roundtrip`, of which
+`read_encode_roundtrip_partial` is the part proved in this file) and for whole files (`module_roundtrip`,
+`module_encodings_agree`) are Part 4, `Props/C08Sections.lean`. -/
 
 namespace W2c2Verif.Props.C08
 open W2c2Verif.Model W2c2Verif.Model.Reader W2c2Verif.Spec.Binary W2c2Verif.Lemmas.Reader
